@@ -100,6 +100,10 @@ type PoolWrap func(lake.Pool) lake.Pool
 // earlier WritePatch wrote (read back with ReadSignature), instead of an in-process ComputeSignature.
 var StoredOldSig = false
 
+// ReuseDiffCtx, when set, is the DiffContext OBJECT DiffDirs fills in and runs (a caller that keeps one context for
+// several diffs); nil = a new context per call.
+var ReuseDiffCtx *pwr.DiffContext
+
 // DiffDirs runs the real ComputeSignature + WritePatch.
 func DiffDirs(oldDir, newDir string, comp Comp, wrap PoolWrap, patchW, sigW io.Writer) (*DiffResult, error) {
 	ctx := context.Background()
@@ -133,14 +137,14 @@ func DiffDirs(oldDir, newDir string, comp Comp, wrap PoolWrap, patchW, sigW io.W
 	if wrap != nil {
 		pool = wrap(pool)
 	}
-	dctx := &pwr.DiffContext{
-		Compression:     comp.Settings(),
-		Consumer:        Quiet(),
-		SourceContainer: newC,
-		Pool:            pool,
-		TargetContainer: oldC,
-		TargetSignature: oldSig,
+	dctx := ReuseDiffCtx
+	if dctx == nil {
+		dctx = &pwr.DiffContext{}
 	}
+	dctx.Compression, dctx.Consumer = comp.Settings(), Quiet()
+	dctx.SourceContainer, dctx.Pool = newC, pool
+	dctx.TargetContainer, dctx.TargetSignature = oldC, oldSig
+	fresh0, reuse0 := dctx.FreshBytes, dctx.ReusedBytes
 	var pb, sb *bytes.Buffer
 	if patchW == nil {
 		pb = new(bytes.Buffer)
@@ -153,7 +157,7 @@ func DiffDirs(oldDir, newDir string, comp Comp, wrap PoolWrap, patchW, sigW io.W
 	if err := dctx.WritePatch(ctx, patchW, sigW); err != nil {
 		return nil, fmt.Errorf("WritePatch: %w", err)
 	}
-	res := &DiffResult{Fresh: dctx.FreshBytes, Reuse: dctx.ReusedBytes, OldC: oldC, NewC: newC, OldSig: oldSig}
+	res := &DiffResult{Fresh: dctx.FreshBytes - fresh0, Reuse: dctx.ReusedBytes - reuse0, OldC: oldC, NewC: newC, OldSig: oldSig}
 	if pb != nil {
 		res.Patch = pb.Bytes()
 	}
